@@ -21,6 +21,8 @@ TREE_OPS = {'gp', 'op', 'ip', 'lc', 'rc', 'sp', 'rp', 'sw', 'proj', 'add', 'sub'
 LISTED = set(BIN_METHOD) | set(UN_METHOD) | {'grade', 'pow', 'coef', 'callreg'} - {'sqrt', 'outerexp', 'outersin', 'outercos', 'outertan'}
 
 ARGN = 'abcd'
+KIND_FORM = {'hodge': ('dual', 'hodge'), 'unhodge': ('undual', 'hodge'), 'polarity': ('dual', 'polarity'), 'unpolarity': ('undual', 'polarity'),
+             'dual': ('dual', 'auto'), 'undual': ('undual', 'auto')}
 
 
 def src(tree):
@@ -47,6 +49,8 @@ def src(tree):
         return f'{k[0]}.{op}({k[1]})'
     if form == 'infix' and op in UN_PREFIX:
         return f'({UN_PREFIX[op]}{k[0]})'
+    if form == 'kind' and op in KIND_FORM:          # x.dual(kind='hodge') etc.: the same operator, spelled through dual()/undual()
+        return f"{k[0]}.{KIND_FORM[op][0]}(kind='{KIND_FORM[op][1]}')"
     return f'{k[0]}.{op}()'
 
 
@@ -122,6 +126,8 @@ def depth1_programs(nargs, d, numbers=(2, -3)):
             out.append((op, [x], [], 'method'))
             if op in UN_PREFIX:
                 out.append((op, [x], [], 'infix'))
+            if op in KIND_FORM:
+                out.append((op, [x], [], 'kind'))
     for x in A:
         for n in numbers:
             for op in ('gp', 'add', 'sub'):
@@ -133,6 +139,18 @@ def depth1_programs(nargs, d, numbers=(2, -3)):
         for gs in ([0], [1], [2], [0, 2], [1, 2], list(range(d + 1))):
             if all(g <= d for g in gs):
                 out.append(('grade', [x], gs, 'method'))
+    return out
+
+
+def dual_chains(nargs=1, polarity=True):
+    """Every dual-like map followed directly by every undual-like map (and the other way round), in method and kind= forms."""
+    D = ['dual', 'hodge'] + (['polarity'] if polarity else [])
+    U = ['undual', 'unhodge'] + (['unpolarity'] if polarity else [])
+    out = []
+    for first, second in [(a, b) for a in D for b in U] + [(b, a) for a in D for b in U]:
+        for f1 in ('method', 'kind'):
+            for f2 in ('method', 'kind'):
+                out.append((second, [(first, [('arg', 1)], [], f1)], [], f2))
     return out
 
 
@@ -149,7 +167,7 @@ def random_program(rng, nargs, d, maxdepth, allow_rational=False, callable_regs=
             ops = ['neg', 'reverse', 'involute', 'conjugate', 'hodge', 'unhodge', 'unpolarity', 'normsq', 'dual', 'undual']
             if allow_rational:
                 ops += ['inv']
-            return (rng.choice(ops), [gen(depth_left - 1)], [], rng.choice(['infix', 'method']))
+            return (rng.choice(ops), [gen(depth_left - 1)], [], rng.choice(['infix', 'method', 'kind']))
         if r < 0.85:
             op = rng.choice(['gp', 'add', 'sub'])
             kids = [('num', rng.choice([2, -1, 3])), gen(depth_left - 1)]
